@@ -80,7 +80,7 @@ class Ctx:
         self.lean_ok = lean_ok
         self.lean_problem = lean_problem
         self.known_open = [k for k in (known or []) if k.get("status") == "open"
-                           and k.get("property") == prop]
+                           and prop in str(k.get("property", "")).split(",")]
         self.violations = []       # dicts: kind ('spec'|'mirror'|'proof'), what, replay
         self.known_seen = {}       # finding id -> what
         self.notes = []
